@@ -769,6 +769,166 @@ def results_section(ck):
     ck.section("results", cases=N, model_terms=len(terms))
 
 
+# ------------------------------------------------------------------ Contrast objects as state machines
+SM_BASES = [0.0, 0.5, -1.0]
+
+
+def _cexp_lit(c):
+    if c[0] == "base":
+        return "(CBase %d)" % c[1]
+    if c[0] == "mul":
+        return "(CMul %s %s)" % (cq(frac(c[1])), _cexp_lit(c[2]))
+    return "(CAdd %s %s)" % (_cexp_lit(c[1]), _cexp_lit(c[2]))
+
+
+def _op_lit(o):
+    if o[0] in ("S", "P", "Z"):
+        return "(%s %s)" % ({"S": "OStat", "P": "OPval", "Z": "OZ"}[o[0]], cq(frac(o[1])))
+    if o[0] == "M":
+        return "(OMul %s)" % cq(frac(o[1]))
+    return "(OAdd (CBase 1))"
+
+
+def state_section(ck):
+    """Every value a Contrast object reports, after ANY sequence of stat / p_value / z_score calls at
+    changing baselines, scalar multiplications and additions, must equal the value a fresh object with the
+    same effect / variance / dof reports for that call."""
+    import itertools
+    import nipy.modalities.fmri.glm as fg
+    import nipy.labs.glm.glm as lg
+    rng = ck.rng("state")
+    build_ok = ck.build is not None and ck.build.ok
+    terms, meta = [], []
+    impls = [("fmri", lambda e, V, d, t: mk_fmri(fg, e, V, d, t), ("stat", "p_value", "z_score")),
+             ("labs", lambda e, V, d, t: mk_labs(lg, e, V, d, t), ("stat", "pvalue", "zscore"))]
+    evalops = [(m, b) for m in "SPZ" for b in SM_BASES[:2]]
+    maxlen = ck.n(2, 3)
+    nrand = ck.n(45, 300)
+    nseq = 0
+    for (name, mk, meths), (typ, dim) in itertools.product(impls, [("t", 1), ("F", 1), ("F", 2), ("tmin-conjunction", 2)]):
+        mname = dict(zip("SPZ", meths))
+        ml = 3 if (typ == "t" or (typ == "F" and dim == 2)) else maxlen      # smallest stale-cache sequences have 3 calls
+        seqs = [list(t) for L in range(1, ml + 1) for t in itertools.product(evalops, repeat=L)]
+        for _ in range(nrand):
+            L = int(rng.integers(3, 8))
+            sq = []
+            for _ in range(L):
+                r = rng.random()
+                if r < 0.7:
+                    sq.append((str(rng.choice(list("SPZ"))), float(rng.choice(SM_BASES))))
+                elif r < 0.9:
+                    k = float(rng.choice([2.0, 0.5, 3.0, -1.0, -2.0]))
+                    sq.append(("M", k, bool(rng.random() < 0.5)))     # k * x or x * k
+                else:
+                    sq.append(("A",))
+            if sq[-1][0] in "MA":
+                sq.append((str(rng.choice(list("PZ"))), float(rng.choice(SM_BASES))))
+            seqs.append(sq)
+        nv = 3
+
+        def rand_content():
+            e = np.round(rng.normal(1.0, 2.0, (dim, nv)), 3)
+            A = rng.normal(0, 1, (dim, dim + 1, nv))
+            V = np.einsum("ikn,jkn->ijn", A, A) + np.eye(dim)[:, :, None] * 0.5
+            return e, np.round(V, 3) if dim == 1 else V, float(rng.choice([5.0, 20.0, 1e3]))
+        base = {0: rand_content(), 1: rand_content()}
+
+        def arrays(c):
+            if c[0] == "base":
+                return base[c[1]]
+            if c[0] == "mul":
+                e, V, d = arrays(c[2])
+                return e * c[1], V * c[1] ** 2, d
+            (e1, V1, d1), (e2, V2, d2) = arrays(c[1]), arrays(c[2])
+            return e1 + e2, V1 + V2, d1 + d2
+        fresh_cache = {}
+
+        def fresh(c, b, m):
+            key = (repr(c), b, m)
+            if key not in fresh_cache:
+                e, V, d = arrays(c)
+                v = getattr(mk(e, V, d, typ), mname[m])(b)
+                fresh_cache[key] = (np.shape(v), np.ravel(np.array(v, dtype=float)))
+            return fresh_cache[key]
+        for sq in seqs:
+            nseq += 1
+            x = mk(*base[0], typ)
+            partner = mk(*base[1], typ)
+            getattr(partner, meths[2])(0.5)          # the partner of `+` has a warm cache of its own
+            cur = ("base", 0)
+            seen = [cur, ("base", 1)]
+            observed = []
+            hist = []
+            ck.count(("state", name, typ, dim, tuple(sq)), nontrivial=len(sq) > 1, bucket="state:%s:%s%d" % (name, typ, dim))
+            for o in sq:
+                hist.append(o)
+                rep = {"impl": name, "type": typ, "dim": dim, "effect": base[0][0].tolist(), "variance": base[0][1].tolist(), "dof": base[0][2],
+                       "partner_effect": base[1][0].tolist(), "partner_variance": base[1][1].tolist(), "partner_dof": base[1][2],
+                       "sequence": [list(h) for h in hist],
+                       "legend": "S/P/Z b = stat/p_value/z_score(baseline b); M k = multiply by k; A = add the partner (evaluated before)"}
+                if o[0] == "M":
+                    x = (o[1] * x) if o[2] else (x * o[1])
+                    cur = ("mul", o[1], cur)
+                    seen.append(cur)
+                    observed.append(None)
+                    continue
+                if o[0] == "A":
+                    x = x + partner
+                    cur = ("add", cur, ("base", 1))
+                    seen.append(cur)
+                    observed.append(None)
+                    continue
+                m, b = o
+                try:
+                    v = getattr(x, mname[m])(b)
+                except IndexError as ex:
+                    ck.fail("state/unravelled-stat-cache/%s" % name,
+                            "%s %s: %s(%r) raised IndexError after %s (stat() caches an un-ravelled array that is later used as a mask)" % (name, typ, mname[m], b, hist[:-1]), rep)
+                    observed.append(None)
+                    continue
+                except Exception as ex:  # noqa
+                    ck.fail("state/raises/%s/%s" % (name, mname[m]), "%s(%r) raised %r after %s" % (mname[m], b, ex, hist[:-1]), rep)
+                    observed.append(None)
+                    continue
+                out = np.ravel(np.array(v, dtype=float))
+                shp, want = fresh(cur, b, m)
+                if np.shape(v) != shp:
+                    ck.fail("state/unravelled-stat-cache/%s" % name,
+                            "%s %s: %s(%r) has shape %s after %s, shape %s on a fresh object" % (name, typ, mname[m], b, np.shape(v), hist[:-1], shp), rep)
+                matches = []
+                for c in seen:
+                    for bb in SM_BASES:
+                        w = fresh(c, bb, m)[1]
+                        if w.shape == out.shape and np.allclose(w, out, rtol=1e-9, atol=1e-12, equal_nan=True):
+                            matches.append((c, bb))
+                observed.append(matches)
+                if (cur, b) not in matches:
+                    rep = dict(rep, got=out.tolist(), from_scratch=want.tolist())
+                    if any(c == cur for c, bb in matches):
+                        bb = [bb for c, bb in matches if c == cur][0]
+                        ck.fail("state/stale-baseline/%s/%s" % (name, mname[m]),
+                                "%s %s: after %s, %s(%r) returns the value of baseline %r" % (name, typ, hist[:-1], mname[m], b, bb), rep)
+                    elif matches:
+                        ck.fail("state/stale-after-algebra/%s/%s" % (name, mname[m]),
+                                "%s %s: after %s, %s(%r) returns a value computed from another object (%s)" % (name, typ, hist[:-1], mname[m], b, matches[0]), rep)
+                    else:
+                        ck.fail("state/unexplained-value/%s/%s" % (name, mname[m]),
+                                "%s %s: after %s, %s(%r) = %s, from scratch %s" % (name, typ, hist[:-1], mname[m], b, out.tolist(), want.tolist()), rep)
+            obs_lit = clist(["None" if ms is None else "(Some %s)" % clist(["(%s, %s)" % (_cexp_lit(c), cq(frac(bb))) for c, bb in ms]) for ms in observed])
+            terms.append("machine_agrees %s_stat_drops_pvalue %s %s" % (name, clist([_op_lit(o) for o in sq]), obs_lit))
+            meta.append({"impl": name, "type": typ, "dim": dim, "sequence": [list(h) for h in sq], "effect": base[0][0].tolist(),
+                         "variance": base[0][1].tolist(), "dof": base[0][2],
+                         "observed_tags": [None if ms is None else [[repr(c), bb] for c, bb in ms] for ms in observed]})
+    if build_ok:
+        res = ck.coq_bools(HDRC, terms, name="state")
+        ck.cov["traces_validated_against_impl"] += len(res)
+        for ok, rep in zip(res, meta):
+            if not ok:
+                ck.fail("state/model-vs-impl/%s" % rep["impl"],
+                        "the cache machine of Model.v (with the invalidation flag translated from the source) and %s disagree on which (contents, baseline) a returned value belongs to, sequence %s" % (rep["impl"], rep["sequence"]), rep)
+    ck.section("state", sequences=nseq, exhaustive_len=maxlen, random_per_class=nrand)
+
+
 def run(ck):
     ck.cov["rule"] = ("fdr: exhaustive p-vectors of length <= 3 (4 thorough) over a 6-point grid + random vectors n<=16 on the "
                       "exactness lattice m*lcm(1..n)/2^40 with planted zeros/ones/ties (exact model comparison) + random float "
@@ -783,4 +943,6 @@ def run(ck):
     contrast_section(ck)
     results_section(ck)
     t3 = time.time()
-    ck.section("timing", build_and_overlay_s=round(t1 - t0, 1), fdr_s=round(t2 - t1, 1), contrast_s=round(t3 - t2, 1))
+    state_section(ck)
+    t4 = time.time()
+    ck.section("timing", build_and_overlay_s=round(t1 - t0, 1), fdr_s=round(t2 - t1, 1), contrast_s=round(t3 - t2, 1), state_s=round(t4 - t3, 1))
